@@ -38,7 +38,7 @@ func decodeAuto(b []byte, rev int, compressed bool) error {
 
 // C07 — a truncated block or message is never accepted.
 func C07(c *vk.Ctx) {
-	c.Rule("corpus = the C01 blocks (every registry composition, plus name-based enums with a member numbered 0, bare and under Array / Nullable; x value sequences of length <= 1, length <= 2 for compositions of depth <= 1; thorough: length <= 2 everywhere) at revision 54460 and the C17 messages (base and every single-field deviation) at three revisions; for each encoding EVERY proper prefix is decoded through the typed target and, where the type is inferable, through Auto (LowCardinality compositions also as a server may write them, with 16-, 32- and 64-bit keys); the same blocks wrapped in None / LZ4 / ZSTD frames (one frame and two frames) are cut at every position of the framed stream. A prefix that the reference model parses as a complete message is not a truncation and is excluded. Large values (a string of 1 MiB + 11 bytes; thorough also 1 MiB, 2 MiB + 5, 128 KiB + 3) as the only, first, last, array-element, nullable, dictionary and map value of a block (plain and as a sequence of 1 MiB LZ4 frames) and as the last field of TableColumns / Exception / ClientData: cut at every byte of the first and last 80 bytes and around the value's start, within +-3 of every 64 KiB multiple from the stream start and from the value start, and every 4099th byte (a stated subset: cutting 1 MiB everywhere is 10^12 byte copies). Many-row blocks (4095 / 4096 / 8192 rows; thorough also 4097 / 12288 / 65536) of every base column, every composition over Nothing and seven wrappers: cut at every byte of the first and last 80 and within +-3 of the first and last sixteen multiples of 4096. Oracle: decoding returns an error, never nil. distinct_nontrivial = (encoding, cut position, decoder) cases.")
+	c.Rule("corpus = the C01 blocks (every registry composition, plus name-based enums with a member numbered 0, bare and under Array / Nullable; x value sequences of length <= 1 (incl. the zero-row header block), length <= 2 for compositions of depth <= 1; thorough: length <= 2 everywhere) at revision 54460 and the C17 messages (base and every single-field deviation) at three revisions; for each encoding EVERY proper prefix is decoded through the typed target and, where the type is inferable, through Auto (LowCardinality compositions also as a server may write them, with 16-, 32- and 64-bit keys); the same blocks wrapped in None / LZ4 / ZSTD frames (one frame and two frames) are cut at every position of the framed stream. A prefix that the reference model parses as a complete message is not a truncation and is excluded. Large values (a string of 1 MiB + 11 bytes; thorough also 1 MiB, 2 MiB + 5, 128 KiB + 3) as the only, first, last, array-element, nullable, dictionary and map value of a block (plain and as a sequence of 1 MiB LZ4 frames) and as the last field of TableColumns / Exception / ClientData: cut at every byte of the first and last 80 bytes and around the value's start, within +-3 of every 64 KiB multiple from the stream start and from the value start, and every 4099th byte (a stated subset: cutting 1 MiB everywhere is 10^12 byte copies). Many-row blocks (4095 / 4096 / 8192 rows; thorough also 4097 / 12288 / 65536) of every base column, every composition over Nothing and seven wrappers: cut at every byte of the first and last 80 and within +-3 of the first and last sixteen multiples of 4096. Oracle: decoding returns an error, never nil. distinct_nontrivial = (encoding, cut position, decoder) cases.")
 	quick := c.Quick()
 	rev := 54460
 	// besides the registry: name-based enums that have a member with the number 0 (a
@@ -66,9 +66,8 @@ func C07(c *vk.Ctx) {
 		}
 		inferable := new(proto.ColAuto).Infer(probe.C.Type()) == nil
 		for _, idx := range seqsOver(na, L) {
-			if len(idx) == 0 {
-				continue
-			}
+			// (the empty sequence is the header block: one column, no rows; what follows the
+			// column's type string is the last thing in it)
 			col, _, canon, err := build(e, idx)
 			if err != nil {
 				continue
